@@ -73,6 +73,25 @@ def step_out_family():
     return out
 
 
+def any_mid_family():
+    """`_` (and `$`) transitions that leave a state other than the entry state of a rule set declared after Init, with a
+    further rule set declared behind it: per-rule-set automata are concatenated and every kind of transition is renumbered"""
+    out = []
+    k = 0
+    for pre in (ch('x'), st('xy'), plus(ch('x'))):
+        for mid in (alt(cs('n', 't'), ANY), ANY, alt(ch('n'), EOFR), alt(ANY, EOFR)):
+            eof_last = R.show(mid).endswith('$') or '$' in R.show(mid)
+            body = cat(pre, mid) if not eof_last else cat(pre, mid)
+            r1 = [Rule(body, 'tok'), Rule(ch('i'), 'sw', target='Init'), Rule(ch('j'), 'swret', target='R2')]
+            r2 = [Rule(ch('a'), 'tok'), Rule(st('ab'), 'tok'), Rule(ch('i'), 'swret', target='Init')]
+            init = [Rule(ch('a'), 'sw', target='R1'), Rule(ch('b'), 'tok'), Rule(ch('c'), 'swret', target='R2')]
+            d = Def('am%d' % k, [('Init', init), ('R1', r1), ('R2', r2)], tags=['anymid', 'C03'])
+            k += 1
+            if d.wellformed():
+                out.append(d)
+    return out
+
+
 def ctx_continue_family():
     """a rule `R > C` whose accepting state accepts only under the context, and a longer rule that runs on through
     characters the context allows and then needs one more: the scan goes on after the context held, fails in a state that
@@ -367,6 +386,8 @@ def select(prop, thorough, rng):
         ll = local_let_family(rng)
         defs += ll if thorough else ll[4:8]
         defs += [stale_family(rng, 'st%d' % j, qkinds=(['sw', 'swret'] if j % 2 == 0 else None)) for j in range(nrand // 3 + 2)]
+        am = any_mid_family()
+        defs += am if thorough else am[::2]
     elif prop == 'C04':
         defs = pick('C04')
         defs += [F.rand_def(rng, 'cx%d' % j, nsets=rng.choice([1, 1, 2]), ctx_p=0.6, eof_p=0.05, kinds=['tok', 'tok', 'ret', 'skip', 'cont'], maxrules=4, depth=1, tags=['C04']) for j in range(nrand + nrand // 2)]
@@ -447,6 +468,26 @@ def select(prop, thorough, rng):
             defs.append(Def('cl_tables2', [('Init', [Rule(cat(t2, star(t1)), 'ret'), Rule(plus(t1), 'tok'), Rule(ch(' '), 'skip')])], tags=[prop], nmax=2))
     else:
         raise ValueError(prop)
+    if prop in ('C03', 'C05', 'C08'):
+        # the automata of the rule sets are concatenated: a transition or entry that is renumbered wrongly may point past
+        # the last state (the macro panics) or into the rule set declared next (silent misbehaviour). A trailing rule set
+        # that no action switches to keeps such indices inside the automaton, so the misbehaviour shows at run time
+        import copy
+        padded = []
+        for d in defs:
+            if len(d.rulesets) >= 2 and len(padded) < (30 if thorough else 10) and not d.local_lets:
+                d2 = copy.deepcopy(d)
+                d2.name = d.name + '_pad'
+                d2.rulesets = list(d2.rulesets) + [('Pad', [Rule(st('padpad'), 'tok'), Rule(cat(ch('p'), ANY, ch('q')), 'tok')])]
+                g = 0
+                for _, rules_ in d2.rulesets:
+                    for r_ in rules_:
+                        r_.gid = g
+                        g += 1
+                d2.nrules = g
+                d2._compiled = None
+                padded.append(d2)
+        defs += padded
     defs = [d for d in uniq(defs) if d.wellformed()]
     if thorough and prop in ('C01', 'C03', 'C05', 'C06', 'C08', 'C09', 'C10'):
         # cross-check of the inductive argument on real histories: whole-stream runs (up to 4 calls) from the
